@@ -7,7 +7,7 @@ cd /verif
 prop="$1"; mode="${2:-quick}"
 mkdir -p .work bin
 exe=".work/check-$$"
-trap 'rm -f "$exe" ".work/alt-$$.mod" ".work/alt-$$.sum"' EXIT
+trap 'rm -f "$exe" ".work/alt-$$.mod" ".work/alt-$$.sum" ".work/check-race-$$"' EXIT
 modflag=""
 if [ -n "${VERIF_REPO:-}" ] && [ "$VERIF_REPO" != "/repo" ]; then
   # development aid only (seeded-defect evaluation in a scratch worktree): the registered commands never set VERIF_REPO
@@ -22,7 +22,8 @@ fi
 rm -f ".work/build-$$.log"
 if [ "$prop" = "C17" ] && [ "$mode" != "replay" ]; then
   # the free-running race pass needs the -race twin, rebuilt from the current tree
-  go build $modflag -race -o bin/check-race ./cmd/check 2>/dev/null || rm -f bin/check-race
+  # (its own file per invocation: concurrent runs against other trees must not share it)
+  if go build $modflag -race -o ".work/check-race-$$" ./cmd/check 2>/dev/null; then export VERIF_RACE_BIN="/verif/.work/check-race-$$"; fi
 fi
 case "$mode" in
   quick|thorough) "$exe" -prop "$prop" -tier "$mode"; rc=$? ;;
